@@ -342,6 +342,148 @@ func c01d(c *Ctx) {
 			}
 		}
 	}
+	// work-list threading: a call that is handed the work list and hands back the extended one
+	// (constructors, splitChunkForBranch) defines *the* work list from then on: no merge after
+	// the call may bring the list back to a value that does not contain the call's result
+	// (`tmp, _ := split(...); if cond { remainingChunks = tmp }` drops the new chunk, whose id
+	// was already taken from the counter, on the other path)
+	if fn := c.Fn("emitter.Emitter.emitScriptStatement"); fn != nil {
+		nCalls := 0
+		for _, ci := range callsIn(fn) {
+			call, ok := ci.(*ssa.Call)
+			if !ok || callee(call) == nil || !c.W.InRepo(callee(call)) {
+				continue
+			}
+			takes := false
+			for _, a := range call.Call.Args {
+				if isChunkSlice(a.Type()) {
+					takes = true
+				}
+			}
+			res := call.Call.Signature().Results()
+			if !takes || res.Len() == 0 || !isChunkSlice(res.At(0).Type()) {
+				continue
+			}
+			nCalls++
+			var result ssa.Value = call
+			if res.Len() > 1 {
+				result = nil
+				for _, r := range *call.Referrers() {
+					if ex, ok := r.(*ssa.Extract); ok && ex.Index == 0 {
+						result = ex
+					}
+				}
+			}
+			key := fmt.Sprintf("emitScriptStatement/worklist-after[%s#%d]", callee(call).Name(), nCalls)
+			pos := c.W.Pos(call.Pos())
+			if result == nil {
+				c.Bad(key, pos, "the work list returned by "+callee(call).Name()+" is discarded")
+				continue
+			}
+			// blocks reachable after the call without going round the work-list loop
+			head := loopHeaders(fn)[call.Block()]
+			reach := map[*ssa.BasicBlock]bool{}
+			var walk func(b *ssa.BasicBlock)
+			walk = func(b *ssa.BasicBlock) {
+				for _, s := range b.Succs {
+					if s == head || reach[s] {
+						continue
+					}
+					reach[s] = true
+					walk(s)
+				}
+			}
+			walk(call.Block())
+			memo := map[ssa.Value]bool{}
+			var derives func(v ssa.Value, depth int) bool
+			derives = func(v ssa.Value, depth int) bool {
+				if v == result {
+					return true
+				}
+				if d, ok := memo[v]; ok {
+					return d
+				}
+				memo[v] = false
+				if depth > 12 {
+					return false
+				}
+				out := false
+				switch x := v.(type) {
+				case *ssa.Phi:
+					out = true
+					for i, e := range x.Edges {
+						pred := x.Block().Preds[i]
+						if pred != call.Block() && !reach[pred] {
+							continue // edge not taken after the call
+						}
+						if !derives(e, depth+1) {
+							out = false
+						}
+					}
+				case *ssa.Call:
+					if calleeName(x) == "builtin:append" {
+						out = derives(x.Call.Args[0], depth+1)
+					} else {
+						for _, a := range x.Call.Args {
+							if isChunkSlice(a.Type()) && derives(a, depth+1) {
+								out = true
+							}
+						}
+					}
+				case *ssa.Extract:
+					out = x.Index == 0 && derives(x.Tuple, depth+1)
+				case *ssa.Slice:
+					out = derives(x.X, depth+1)
+				}
+				memo[v] = out
+				return out
+			}
+			okAll := true
+			why := ""
+			for b := range reach {
+				for _, in := range b.Instrs {
+					ph, ok := in.(*ssa.Phi)
+					if !ok || !isChunkSlice(ph.Type()) {
+						continue
+					}
+					for i, e := range ph.Edges {
+						pred := b.Preds[i]
+						if pred != call.Block() && !reach[pred] {
+							continue
+						}
+						if pred == call.Block() && !instrDominates(call, pred.Instrs[len(pred.Instrs)-1]) {
+							continue
+						}
+						if !derives(e, 0) {
+							okAll = false
+							why = "at " + c.W.Pos(ph.Pos()) + " the work list can become " + pretty(c.term(fn, e)) + ", which does not contain the list returned by " + callee(call).Name()
+						}
+					}
+				}
+			}
+			// and the back edge of the work-list loop carries a list that derives from it
+			if head != nil {
+				for _, in := range head.Instrs {
+					ph, ok := in.(*ssa.Phi)
+					if !ok || !isChunkSlice(ph.Type()) {
+						continue
+					}
+					for i, e := range ph.Edges {
+						pred := head.Preds[i]
+						if !reach[pred] && pred != call.Block() {
+							continue
+						}
+						if !derives(e, 0) {
+							okAll = false
+							why = "the next iteration of the work-list loop can start with " + pretty(c.term(fn, e)) + ", which does not contain the list returned by " + callee(call).Name()
+						}
+					}
+				}
+			}
+			c.Check(okAll, key, pos, "the list handed back is the work list from then on", "the work list returned by "+callee(call).Name()+" is dropped on some path: "+why+" (a chunk whose id was already allocated would never be emitted)")
+		}
+		c.Check(nCalls >= 6, "emitScriptStatement/worklist-calls", c.W.FuncPos(fn), fmt.Sprintf("%d calls thread the work list", nCalls), fmt.Sprintf("only %d calls that take and return the work list found", nCalls))
+	}
 	// work-list loop: every dequeued chunk is finalised on every non-error path of the iteration
 	if fn := c.Fn("emitter.Emitter.emitScriptStatement"); fn != nil {
 		var updates []*ssa.MapUpdate
